@@ -16,7 +16,7 @@
 (*  Q.g(i fl st bo id e cu li lni lli le in lin in2                        *)
 (*      dflt=7 din={k:5,r:1} de=GREEN):Int                                 *)
 (*  Q.gni(ni:Int!) gne(ne:E!) gnli(nli:[Int]!) gnin(nin:In!) : Int          *)
-(*  type M { a:Int b:Int c:Int o:O }                                       *)
+(*  type M { a:Int b:Int c:Int o:O l:[O] }                                 *)
 (***************************************************************************)
 EXTENDS GQLBase
 
@@ -74,7 +74,7 @@ S1 ==
               << Arg("n", N("In")), Arg("l", TList(N("Int"))), Arg("e", N("E")) >>],
      Cu |-> Ty("SCALAR"),
      M |-> [Ty("OBJECT") EXCEPT !.fields =
-              << F("a", N("Int")), F("b", N("Int")), F("c", N("Int")), F("o", N("O")) >>],
+              << F("a", N("Int")), F("b", N("Int")), F("c", N("Int")), F("o", N("O")), F("l", TList(N("O"))) >>],
      Int |-> Ty("SCALAR"), Float |-> Ty("SCALAR"), String |-> Ty("SCALAR"),
      Boolean |-> Ty("SCALAR"), ID |-> Ty("SCALAR")]]
 
